@@ -616,8 +616,8 @@ theorem nodup_append_disjoint {pre env : Env} (h : (keys (pre ++ env)).Nodup) {k
 /-- what the main induction establishes for the result cells `rs` of `eval w e env` -/
 structure QInv (w : World) (e : Expr) (env : Env) (rs : List (Env × Bool)) : Prop where
   /-- true cells extend `env` by bindings of `e`'s variables to domain elements (and of literal nodes) -/
-  ext : ∀ p ∈ rs, p.2 = true → ∃ pre, p.1 = pre ++ env ∧
-    ∀ b ∈ pre, ∀ v, b.1 = Key.var v → v ∈ e.vars ∧ b.2 ∈ w.dom v
+  ext : ∀ p ∈ rs, p.2 = true → (∃ pre, p.1 = pre ++ env) ∧
+    ∀ b ∈ p.1, b ∈ env ∨ ∀ v, b.1 = Key.var v → v ∈ e.vars ∧ b.2 ∈ w.dom v
   fn : ∀ p ∈ rs, p.2 = true → EnvFn p.1
   /-- soundness: every assignment compatible with a true cell satisfies `e` -/
   sound : ∀ p ∈ rs, p.2 = true → ∀ τ b, Covers w τ e.fvars → agreesB τ p.1 = true → satE w e τ = .ok b → b = true
@@ -755,9 +755,13 @@ theorem exists_qinv (w : World) (hnd : ∀ v, (w.dom v).Nodup) (q : VarId) (φ :
   refine ⟨?_, ?_, ?_, ?_⟩
   · intro p hp hpt
     obtain ⟨pre, x, hpe, _, _, _, _, hpv⟩ := hcell p.1 (hsub p hp).2
-    refine ⟨pre, hpe, ?_⟩
-    intro b hb v hv
-    exact ⟨List.mem_cons_of_mem _ (hpv b hb v hv).1, (hpv b hb v hv).2⟩
+    refine ⟨⟨pre, hpe⟩, ?_⟩
+    intro b hb
+    rw [hpe] at hb
+    rcases List.mem_append.mp hb with hb | hb
+    · right; intro v hv
+      exact ⟨List.mem_cons_of_mem _ (hpv b hb v hv).1, (hpv b hb v hv).2⟩
+    · left; exact hb
   · intro p hp hpt
     obtain ⟨pre, x, hpe, hnd1, _⟩ := hcell p.1 (hsub p hp).2
     exact EnvFn.of_nodup hnd1
@@ -819,5 +823,493 @@ theorem exists_qinv (w : World) (hnd : ∀ v, (w.dom v).Nodup) (q : VarId) (φ :
           rintro rfl; exact not_mem_keys_of_lookup_none hq (mem_keys hmem)
         rw [lookup_cons_ne hvq]
         exact agreesB_iff.mp hag v y hmem
+
+/-! ## Q6. `ForAll` -/
+
+theorem foldlM_filter_ok {α β} (F : β → α → Except Err Bool) : ∀ (rest : List β) (cands final : List α),
+    rest.foldlM (fun sols qv => sols.filterM (F qv)) cands = .ok final →
+    (∀ sol ∈ final, sol ∈ cands ∧ ∀ qv ∈ rest, F qv sol = .ok true) ∧
+    (∀ sol ∈ cands, (∀ qv ∈ rest, ∀ b, F qv sol = .ok b → b = true) → sol ∈ final) := by
+  intro rest
+  induction rest with
+  | nil =>
+    intro cands final h
+    rw [List.foldlM_nil] at h
+    have := pure_ok h; subst this
+    exact ⟨fun sol hs => ⟨hs, by simp⟩, fun sol hs _ => hs⟩
+  | cons qv rest ih =>
+    intro cands final h
+    rw [List.foldlM_cons] at h
+    obtain ⟨sols1, h1, h⟩ := bind_ok h
+    obtain ⟨g, hg, rfl⟩ := filterM_ok h1
+    obtain ⟨ih1, ih2⟩ := ih _ _ h
+    constructor
+    · intro sol hs
+      obtain ⟨hm, hall⟩ := ih1 sol hs
+      obtain ⟨hm1, hm2⟩ := List.mem_filter.mp hm
+      refine ⟨hm1, ?_⟩
+      intro qv' hqv'
+      rcases List.mem_cons.mp hqv' with rfl | hqv'
+      · rw [hg sol hm1, hm2]
+      · exact hall qv' hqv'
+    · intro sol hs hall
+      apply ih2 sol
+      · exact List.mem_filter.mpr ⟨hs, hall qv List.mem_cons_self _ (hg sol hs)⟩
+      · intro qv' hqv'; exact hall qv' (List.mem_cons_of_mem _ hqv')
+
+/-- the flag `ForAll` reads off a re-check: that of the FIRST result -/
+def firstFlag : List (Env × Bool) → Bool
+  | r :: _ => r.2
+  | [] => false
+
+theorem eval_forAll_inv {w : World} {q : VarId} {c : Expr} {env : Env} {out : List (Env × Bool)}
+    (hq : env.lookup (.var q) = none) (h : eval w (.forAll q c) env = .ok out) :
+    ∃ x0 xs c0 final, w.dom q = x0 :: xs ∧ eval w c ((.var q, x0) :: env) = .ok c0 ∧
+      (xs.map fun x => ((Key.var q, x) :: env, x, true)).foldlM
+        (fun (sols : List Env) (qv : Env × Val × Bool) => sols.filterM
+          ((fun (qv : Env × Val × Bool) (sol : Env) => do
+            let rs ← eval w c (merge sol qv.1)
+            pure (firstFlag rs)) qv))
+        ((c0.filter (·.2)).map fun p => restrict p.1 (c.nodes.filter (· != .var q))) = .ok final ∧
+      out = final.map fun sol => (merge env sol, true) := by
+  simp only [eval, evalVar, hq] at h
+  cases hd : w.dom q with
+  | nil => rw [hd] at h; cases h
+  | cons x0 xs =>
+    rw [hd] at h
+    simp only [List.map_cons] at h
+    obtain ⟨c0, h0, h⟩ := bind_ok h
+    obtain ⟨final, hf, h⟩ := bind_ok h
+    exact ⟨x0, xs, c0, final, rfl, h0, hf, (pure_ok h).symm⟩
+
+theorem Term.lits_ids (t : Term) : t.lits.map (·.1) = litIds t.nodes := by
+  induction t with
+  | var v => simp [Term.lits, Term.nodes, litIds]
+  | lit i x => simp [Term.lits, Term.nodes, litIds]
+  | attr t n ih => exact ih
+  | index t i ih => exact ih
+  | flatten t ih => exact ih
+
+theorem litIds_cons_var (v : VarId) (ks : List Key) : litIds (Key.var v :: ks) = litIds ks := by
+  simp [litIds]
+
+theorem Expr.lits_ids (e : Expr) : e.lits.map (·.1) = litIds e.nodes := by
+  induction e with
+  | cmp op l r => simp only [Expr.lits, Expr.nodes, List.map_append, litIds_append, Term.lits_ids]
+  | contains c i => simp only [Expr.lits, Expr.nodes, List.map_append, litIds_append, Term.lits_ids]
+  | truth t => simp only [Expr.lits, Expr.nodes, Term.lits_ids]
+  | hasType t c => simp only [Expr.lits, Expr.nodes, Term.lits_ids]
+  | and l r ihl ihr => simp only [Expr.lits, Expr.nodes, List.map_append, litIds_append, ihl, ihr]
+  | elseIf l r ihl ihr => simp only [Expr.lits, Expr.nodes, List.map_append, litIds_append, ihl, ihr]
+  | union l r ihl ihr => simp only [Expr.lits, Expr.nodes, List.map_append, litIds_append, ihl, ihr]
+  | not e ih => simp only [Expr.lits, Expr.nodes, ih]
+  | exists_ v e ih => simp only [Expr.lits, Expr.nodes, litIds_cons_var, ih]
+  | forAll v e ih => simp only [Expr.lits, Expr.nodes, litIds_cons_var, ih]
+
+theorem fst_nodup_fn {α β} {l : List (α × β)} (h : (l.map (·.1)).Nodup) {a : α} {x y : β}
+    (h1 : (a, x) ∈ l) (h2 : (a, y) ∈ l) : x = y := by
+  induction l with
+  | nil => cases h1
+  | cons p t ih =>
+    simp only [List.map_cons, List.nodup_cons] at h
+    rcases List.mem_cons.mp h1 with h1 | h1 <;> rcases List.mem_cons.mp h2 with h2 | h2
+    · rw [← h1] at h2; cases h2; rfl
+    · exfalso; apply h.1; rw [← h1]; exact List.mem_map.mpr ⟨(a, y), h2, rfl⟩
+    · exfalso; apply h.1; rw [← h2]; exact List.mem_map.mpr ⟨(a, x), h1, rfl⟩
+    · exact ih h.2 h1 h2
+
+theorem mem_lits_nodes {e : Expr} {id : Nat} {x : Val} (h : (id, x) ∈ e.lits) : Key.lit id ∈ e.nodes := by
+  rw [← mem_litIds, ← Expr.lits_ids]
+  exact List.mem_map.mpr ⟨(id, x), h, rfl⟩
+
+theorem lookup_cons_key_ne {env : Env} {k k' : Key} {x : Val} (h : k ≠ k') :
+    List.lookup k ((k', x) :: env) = env.lookup k := by
+  have : (k == k') = false := by simp [h]
+  rw [List.lookup_cons, this]
+
+theorem mem_restrict {env : Env} {ids : List Key} {b : Key × Val} :
+    b ∈ restrict env ids ↔ b ∈ env ∧ b.1 ∈ ids := by
+  simp [restrict, List.mem_filter]
+
+/-- **ForAll**: if every TRUE result cell of `φ` binds every node of `φ` and the universal domain is not empty, the
+results of `forAll q φ` are sound and complete for `∀ q ∈ dom q, φ` -/
+theorem forAll_qinv (w : World) (hnd : ∀ v, (w.dom v).Nodup) (q : VarId) (φ : Expr) (hF : φ.Fc = true)
+    (hln : LitNodup φ) (hall : ∀ k ∈ φ.nodes, k ∈ Expr.bK true φ)
+    (env : Env) (out : List (Env × Bool)) (hk : (keys env).Nodup)
+    (hq : env.lookup (.var q) = none) (hlf : LitFresh φ.nodes env)
+    (h : eval w (.forAll q φ) env = .ok out) :
+    QInv w (.forAll q φ) env out := by
+  obtain ⟨x0, xs, c0, final, hdom, h0, hfold, rfl⟩ := eval_forAll_inv hq h
+  obtain ⟨hfin1, hfin2⟩ := foldlM_filter_ok _ _ _ _ hfold
+  have hfv : (Expr.forAll q φ).fvars = φ.vars.filter (· != q) := by simp only [Expr.fvars, Expr.fvars_Fc hF]
+  have hx0d : x0 ∈ w.dom q := by rw [hdom]; exact List.mem_cons_self
+  have hxsd : ∀ x ∈ xs, x ∈ w.dom q := fun x hx => by rw [hdom]; exact List.mem_cons_of_mem _ hx
+  let others := φ.nodes.filter (· != Key.var q)
+  let env0 : Env := (Key.var q, x0) :: env
+  have hk0 : (keys env0).Nodup := by
+    simp only [env0, keys, List.map_cons, List.nodup_cons]
+    exact ⟨not_mem_keys_of_lookup_none hq, hk⟩
+  have hlf0 : LitFresh φ.nodes env0 := by
+    intro id hid
+    show List.lookup (Key.lit id) ((Key.var q, x0) :: env) = none
+    rw [lookup_cons_key_ne (by intro h; cases h)]; exact hlf id hid
+  -- facts about a true cell of `c0` and the candidate made from it
+  have hcell : ∀ c ∈ c0, c.2 = true →
+      (∃ pre0, c.1 = pre0 ++ env0 ∧ (∀ b ∈ pre0, (∀ v, b.1 = Key.var v → v ∈ φ.vars ∧ b.2 ∈ w.dom v) ∧
+          (∀ id, b.1 = Key.lit id → (id, b.2) ∈ φ.lits))) ∧
+      (keys c.1).Nodup ∧ (∀ k ∈ φ.nodes, k ≠ Key.var q → ∃ y, (k, y) ∈ restrict c.1 others) := by
+    intro c hc hct
+    obtain ⟨pre0, hpe, hprop, hnod⟩ := eval_ext w φ hF env0 c0 h0 c hc
+    obtain ⟨pre1, hpe1, hlit⟩ := eval_lit w φ hF env0 c0 h0 c hc
+    have : pre1 = pre0 := List.append_cancel_right (hpe1.symm.trans hpe)
+    subst this
+    refine ⟨⟨pre1, hpe, fun b hb => ⟨fun v hv => ⟨Expr.mem_nodes_var.mp (hv ▸ (hprop b hb).1), (hprop b hb).2 v hv⟩,
+      hlit b hb⟩⟩, hnod hk0, ?_⟩
+    intro k hkn hkq
+    obtain ⟨y, hy⟩ := isSome_mem (bK_sound w φ hF env0 c0 h0 c hc true hct k (hall k hkn))
+    exact ⟨y, mem_restrict.mpr ⟨hy, List.mem_filter.mpr ⟨hkn, by simp [hkq]⟩⟩⟩
+  -- members of a candidate and of `env` are members of the cell
+  have hsub : ∀ c ∈ c0, c.2 = true → ∀ b, (b ∈ restrict c.1 others ∨ b ∈ env) → b ∈ c.1 := by
+    intro c hc hct b hb
+    rcases hb with hb | hb
+    · exact (mem_restrict.mp hb).1
+    · obtain ⟨⟨pre0, hpe, _⟩, _, _⟩ := hcell c hc hct
+      rw [hpe]; exact List.mem_append_right _ (List.mem_cons_of_mem _ hb)
+  -- closedness of the re-check environment
+  have hclosed : ∀ c ∈ c0, c.2 = true → ∀ (τ : Asg) (x : Val),
+      (∀ v y, (Key.var v, y) ∈ restrict c.1 others → τ.lookup v = some y) →
+      Closed ((q, x) :: τ) (merge (restrict c.1 others) ((Key.var q, x) :: env)) φ.vars φ.lits := by
+    intro c hc hct τ x hτ
+    obtain ⟨⟨pre0, hpe, hpre⟩, hnd1, hbound⟩ := hcell c hc hct
+    have hlk : ∀ k y, k ≠ Key.var q → (k, y) ∈ restrict c.1 others →
+        (merge (restrict c.1 others) ((Key.var q, x) :: env)).lookup k = some y := by
+      intro k y hkq hm
+      show List.lookup k ((Key.var q, x) :: (env ++ restrict c.1 others)) = some y
+      rw [lookup_cons_key_ne hkq]
+      have hfn : EnvFn (env ++ restrict c.1 others) := by
+        intro k' a b ha hb
+        have ha' : (k', a) ∈ c.1 := hsub c hc hct _ ((List.mem_append.mp ha).symm)
+        have hb' : (k', b) ∈ c.1 := hsub c hc hct _ ((List.mem_append.mp hb).symm)
+        exact EnvFn.of_nodup hnd1 k' a b ha' hb'
+      exact hfn.lookup (List.mem_append_right _ hm)
+    constructor
+    · intro v hv
+      by_cases hvq : v = q
+      · subst hvq
+        exact ⟨x, by show List.lookup (Key.var v) ((Key.var v, x) :: _) = some x; simp, lookup_cons_self⟩
+      · have hkq : Key.var v ≠ Key.var q := by intro h; cases h; exact hvq rfl
+        obtain ⟨y, hy⟩ := hbound (.var v) (Expr.mem_nodes_var.mpr hv) hkq
+        exact ⟨y, hlk _ y hkq hy, by rw [lookup_cons_ne hvq]; exact hτ v y hy⟩
+    · intro il hil
+      obtain ⟨id, lx⟩ := il
+      have hkq : Key.lit id ≠ Key.var q := by intro h; cases h
+      obtain ⟨y, hy⟩ := hbound (.lit id) (mem_lits_nodes hil) hkq
+      have hyc : (Key.lit id, y) ∈ c.1 := (mem_restrict.mp hy).1
+      rw [hpe] at hyc
+      have hyl : (id, y) ∈ φ.lits := by
+        rcases List.mem_append.mp hyc with hyc | hyc
+        · exact (hpre _ hyc).2 id rfl
+        · rcases List.mem_cons.mp hyc with hyc | hyc
+          · cases hyc
+          · exact absurd (mem_keys hyc) (not_mem_keys_of_lookup_none (hlf id (mem_lits_nodes hil)))
+      have : y = lx := fst_nodup_fn (by rw [Expr.lits_ids]; exact hln) hyl hil
+      subst this
+      exact hlk _ y hkq hy
+  -- a candidate agrees with `τ` iff its cell agrees with `(q, x0) :: τ`
+  have hagcell : ∀ c ∈ c0, c.2 = true → ∀ τ : Asg, agreesB τ env = true →
+      (∀ v y, (Key.var v, y) ∈ restrict c.1 others → τ.lookup v = some y) →
+      agreesB ((q, x0) :: τ) c.1 = true := by
+    intro c hc hct τ hag hτ
+    obtain ⟨⟨pre0, hpe, hpre⟩, hnd1, _⟩ := hcell c hc hct
+    rw [agreesB_iff]
+    intro v y hm
+    by_cases hvq : v = q
+    · subst hvq
+      have h1 := lookup_of_mem_nodup hnd1 hm
+      have h2 := lookup_of_mem_nodup hnd1 (hpe ▸ (List.mem_append_right pre0 (List.mem_cons_self) : (Key.var v, x0) ∈ pre0 ++ env0))
+      rw [h1] at h2; cases h2
+      exact lookup_cons_self
+    · rw [lookup_cons_ne hvq]
+      rw [hpe] at hm
+      rcases List.mem_append.mp hm with hm' | hm'
+      · apply hτ v y
+        refine mem_restrict.mpr ⟨hpe ▸ List.mem_append_left _ hm', List.mem_filter.mpr ⟨?_, ?_⟩⟩
+        · exact Expr.mem_nodes_var.mpr ((hpre _ hm').1 v rfl).1
+        · simp; intro h; exact hvq h
+      · rcases List.mem_cons.mp hm' with hm' | hm'
+        · cases hm'; exact absurd rfl hvq
+        · exact agreesB_iff.mp hag v y hm'
+  have hcand : ∀ sol ∈ (c0.filter (·.2)).map (fun p => restrict p.1 others),
+      ∃ c ∈ c0, c.2 = true ∧ sol = restrict c.1 others := by
+    intro sol hs
+    obtain ⟨c, hc, rfl⟩ := List.mem_map.mp hs
+    obtain ⟨hc1, hc2⟩ := List.mem_filter.mp hc
+    exact ⟨c, hc1, hc2, rfl⟩
+  have hrest : ∀ x ∈ xs, ((Key.var q, x) :: env, x, true) ∈ xs.map (fun x => ((Key.var q, x) :: env, x, true)) :=
+    fun x hx => List.mem_map.mpr ⟨x, hx, rfl⟩
+  refine ⟨?_, ?_, ?_, ?_⟩
+  · -- ext
+    intro p hp _
+    obtain ⟨sol, hsol, rfl⟩ := List.mem_map.mp hp
+    obtain ⟨c, hc, hct, rfl⟩ := hcand sol (hfin1 sol hsol).1
+    refine ⟨⟨restrict c.1 others, rfl⟩, ?_⟩
+    intro b hb
+    rcases List.mem_append.mp hb with hb | hb
+    · obtain ⟨⟨pre0, hpe, hpre⟩, _, _⟩ := hcell c hc hct
+      obtain ⟨hbc, hbo⟩ := mem_restrict.mp hb
+      rw [hpe] at hbc
+      rcases List.mem_append.mp hbc with hbc | hbc
+      · right; intro v hv
+        exact ⟨List.mem_cons_of_mem _ ((hpre b hbc).1 v hv).1, ((hpre b hbc).1 v hv).2⟩
+      · rcases List.mem_cons.mp hbc with hbc | hbc
+        · exfalso; subst hbc
+          have := (List.mem_filter.mp hbo).2
+          simp at this
+        · left; exact hbc
+    · left; exact hb
+  · -- fn
+    intro p hp _
+    obtain ⟨sol, hsol, rfl⟩ := List.mem_map.mp hp
+    obtain ⟨c, hc, hct, rfl⟩ := hcand sol (hfin1 sol hsol).1
+    obtain ⟨_, hnd1, _⟩ := hcell c hc hct
+    intro k a b ha hb
+    exact EnvFn.of_nodup hnd1 k a b (hsub c hc hct _ (List.mem_append.mp ha)) (hsub c hc hct _ (List.mem_append.mp hb))
+  · -- soundness
+    intro p hp _ τ b hcov hag hs
+    obtain ⟨sol, hsol, rfl⟩ := List.mem_map.mp hp
+    obtain ⟨hsc, hchk⟩ := hfin1 sol hsol
+    obtain ⟨c, hc, hct, rfl⟩ := hcand sol hsc
+    have hag' : agreesB τ (restrict c.1 others ++ env) = true := hag
+    rw [agreesB_append, Bool.and_eq_true] at hag'
+    have hτ : ∀ v y, (Key.var v, y) ∈ restrict c.1 others → τ.lookup v = some y :=
+      fun v y hm => agreesB_iff.mp hag'.1 v y hm
+    simp only [satE] at hs
+    obtain ⟨g, hg, hb⟩ := allM_ok hs
+    rw [hb, List.all_eq_true]
+    intro x hx
+    rw [hdom] at hx
+    have hcovx : ∀ x ∈ w.dom q, Covers w ((q, x) :: τ) φ.vars := fun x hx => covers_cons hnd hx (by
+      intro v hv hvq
+      exact hcov v (by rw [hfv]; exact List.mem_filter.mpr ⟨hv, by simp [hvq]⟩))
+    rcases List.mem_cons.mp hx with rfl | hx
+    · have hagc := hagcell c hc hct τ hag'.2 hτ
+      have hag0 : agreesB ((q, x) :: τ) env0 = true := by
+        obtain ⟨⟨pre0, hpe, _⟩, _, _⟩ := hcell c hc hct
+        rw [hpe, agreesB_append, Bool.and_eq_true] at hagc; exact hagc.2
+      have hcv := cover w _ φ hF (hcovx x hx0d) hln env0 c0 (g x) hlf0 hag0 h0 (hg x hx0d)
+      have : true ∈ (c0.filter fun p => agreesB ((q, x) :: τ) p.1).map (·.2) :=
+        List.mem_map.mpr ⟨c, List.mem_filter.mpr ⟨hc, hagc⟩, hct⟩
+      rw [hcv, List.mem_singleton] at this
+      exact this.symm
+    · have hF1 := hchk _ (hrest x hx)
+      obtain ⟨rs, hrs, hfl⟩ := bind_ok hF1
+      have hfl := pure_ok hfl
+      have := closed_eval w _ φ hF _ rs (g x) (hclosed c hc hct τ x hτ) hrs (hg x (hxsd x hx))
+      subst this
+      exact hfl
+  · -- completeness
+    intro τ hcov hag hs
+    simp only [satE] at hs
+    obtain ⟨g, hg, hb⟩ := allM_ok hs
+    have hgall : ∀ x ∈ w.dom q, g x = true := List.all_eq_true.mp hb.symm
+    have hcovx : ∀ x ∈ w.dom q, Covers w ((q, x) :: τ) φ.vars := fun x hx => covers_cons hnd hx (by
+      intro v hv hvq
+      exact hcov v (by rw [hfv]; exact List.mem_filter.mpr ⟨hv, by simp [hvq]⟩))
+    have hag0 : agreesB ((q, x0) :: τ) env0 = true := by
+      show agreesB ((q, x0) :: τ) ((Key.var q, x0) :: env) = true
+      rw [agreesB_cons_var, lookup_cons_self, agrees_cons_of_unbound hag hq]; simp
+    have hsat0 : satE w φ ((q, x0) :: τ) = .ok true := by rw [hg x0 hx0d, hgall x0 hx0d]
+    obtain ⟨a, _, hav, ham, haa⟩ :=
+      cells_single (cover w _ φ hF (hcovx x0 hx0d) hln env0 c0 true hlf0 hag0 h0 hsat0)
+    have hτ : ∀ v y, (Key.var v, y) ∈ restrict a.1 others → τ.lookup v = some y := by
+      intro v y hm
+      obtain ⟨hm1, hm2⟩ := mem_restrict.mp hm
+      have hvq : v ≠ q := by
+        rintro rfl
+        have := (List.mem_filter.mp hm2).2
+        simp at this
+      have := agreesB_iff.mp haa v y hm1
+      rwa [lookup_cons_ne hvq] at this
+    have hsolc : restrict a.1 others ∈ (c0.filter (·.2)).map (fun p => restrict p.1 others) :=
+      List.mem_map.mpr ⟨a, List.mem_filter.mpr ⟨ham, hav⟩, rfl⟩
+    have hsolf : restrict a.1 others ∈ final := by
+      apply hfin2 _ hsolc
+      intro qv hqv b hFb
+      obtain ⟨x, hx, rfl⟩ := List.mem_map.mp hqv
+      obtain ⟨rs, hrs, hfl⟩ := bind_ok hFb
+      have hfl := pure_ok hfl
+      have hsx : satE w φ ((q, x) :: τ) = .ok true := by rw [hg x (hxsd x hx), hgall x (hxsd x hx)]
+      have := closed_eval w _ φ hF _ rs true (hclosed a ham hav τ x hτ) hrs hsx
+      subst this
+      exact hfl.symm
+    refine ⟨(merge env (restrict a.1 others), true), List.mem_map.mpr ⟨_, hsolf, rfl⟩, rfl, [], by simp, ?_⟩
+    show agreesB τ (restrict a.1 others ++ env) = true
+    rw [agreesB_append, hag, Bool.and_true, agreesB_iff]
+    exact hτ
+
+
+/-! ## Q7. The chain `and l₁ (and l₂ (… Q))` -/
+
+/-- **the quantifier fragment** (`A`: variables that MAY be bound when `e` is reached; `B`: keys that ARE bound then):
+a chain of `and`s whose left operands are in the cover fragment and whose last operand is ONE quantifier over a
+condition `φ` in the cover fragment, such that the quantified variable is not used outside the quantifier, and
+
+* `exists_ q φ`: every result cell of `φ` — true or false — binds `q` (negation of the trigger of F-C01-7), and every
+  other variable of `φ` is bound before the quantifier is reached (negation of the trigger of F-C01-5);
+* `forAll q φ`: every TRUE result cell of `φ` binds every node of `φ` (negation of the trigger of F-C01-11). -/
+def Expr.Ql : Expr → List VarId → List Key → Bool
+  | .and l e', A, B => l.Fc && Expr.Ql e' (A ++ l.vars) (B ++ Expr.bK true l)
+  | .exists_ q φ, A, B => φ.Fc && !A.contains q && (Expr.bK true φ).contains (.var q) &&
+      (Expr.bK false φ).contains (.var q) && φ.vars.all fun v => v == q || B.contains (.var v)
+  | .forAll q φ, A, _ => φ.Fc && !A.contains q && φ.nodes.all fun k => (Expr.bK true φ).contains k
+  | _, _, _ => false
+
+theorem ql_qvars (e : Expr) : ∀ A B, e.Ql A B = true → ∀ v ∈ e.qvars, v ∉ A ∧ v ∉ e.fvars := by
+  induction e with
+  | and l e' _ ih =>
+    intro A B h v hv
+    simp only [Expr.Ql, Bool.and_eq_true] at h
+    simp only [Expr.qvars, Expr.qvars_Fc h.1, List.nil_append] at hv
+    obtain ⟨h1, h2⟩ := ih _ _ h.2 v hv
+    simp only [List.mem_append, not_or] at h1
+    simp only [Expr.fvars, Expr.fvars_Fc h.1, List.mem_append, not_or]
+    exact ⟨h1.1, h1.2, h2⟩
+  | exists_ q φ _ =>
+    intro A B h v hv
+    simp only [Expr.Ql, Bool.and_eq_true, Bool.not_eq_true'] at h
+    simp only [Expr.qvars, Expr.qvars_Fc h.1.1.1.1, List.mem_singleton] at hv
+    subst hv
+    exact ⟨by simpa using h.1.1.1.2, by simp [Expr.fvars]⟩
+  | forAll q φ _ =>
+    intro A B h v hv
+    simp only [Expr.Ql, Bool.and_eq_true, Bool.not_eq_true'] at h
+    simp only [Expr.qvars, Expr.qvars_Fc h.1.1, List.mem_singleton] at hv
+    subst hv
+    exact ⟨by simpa using h.1.2, by simp [Expr.fvars]⟩
+  | _ => intro A B h; simp [Expr.Ql] at h
+
+theorem litNodup_cons_var {q : VarId} {ks : List Key} (h : (litIds (Key.var q :: ks)).Nodup) : (litIds ks).Nodup := by
+  rwa [litIds_cons_var] at h
+
+/-- **main induction**: on the fragment the result cells are sound and complete for the first-order reading -/
+theorem ql_qinv (w : World) (hnd : ∀ v, (w.dom v).Nodup) (e : Expr) : ∀ A B, e.Ql A B = true → LitNodup e →
+    ∀ env rs, (keys env).Nodup → (∀ k ∈ B, (env.lookup k).isSome = true) →
+      (∀ v, (env.lookup (.var v)).isSome = true → v ∈ A) → LitFresh e.nodes env →
+      eval w e env = .ok rs → QInv w e env rs := by
+  induction e with
+  | and l e' _ ih =>
+    intro A B hQ hln env rs hk hB hA hlf h
+    simp only [Expr.Ql, Bool.and_eq_true] at hQ
+    obtain ⟨hFl, hQ'⟩ := hQ
+    obtain ⟨ls, g, h0, rfl, hg⟩ := eval_and_inv h
+    obtain ⟨hnl, hnr, hd⟩ := litNodup_append hln
+    have hextl := eval_ext w l hFl env ls h0
+    -- the invariant for the rest of the chain, from each true cell of `l`
+    have hrest : ∀ a ∈ ls, a.2 = true → QInv w e' a.1 (g a) := by
+      intro a ha hat
+      obtain ⟨pre, hpe, hprop, hnod⟩ := hextl a ha
+      apply ih (A ++ l.vars) (B ++ Expr.bK true l) hQ' hnr a.1 (g a) (hnod hk)
+      · intro k hkm
+        rcases List.mem_append.mp hkm with hkm | hkm
+        · exact (hextl a ha).isSome (hB k hkm)
+        · exact bK_sound w l hFl env ls h0 a ha true hat k hkm
+      · intro v hv
+        rw [hpe, List.lookup_append] at hv
+        cases hl : List.lookup (Key.var v) pre with
+        | none => rw [hl] at hv; exact List.mem_append_left _ (hA v (by simpa using hv))
+        | some y =>
+          exact List.mem_append_right _ (Expr.mem_nodes_var.mp ((hprop _ (lookup_mem' hl)).1))
+      · exact (hextl a ha).litFresh (hlf.mono (subset_append_right _ _)) hd
+      · exact (hg a ha).1 hat
+    -- a true result comes from a true cell of `l`
+    have hsrc : ∀ p ∈ ls.flatMap g, p.2 = true → ∃ a ∈ ls, a.2 = true ∧ p ∈ g a := by
+      intro p hp hpt
+      obtain ⟨a, ha, hpa⟩ := List.mem_flatMap.mp hp
+      cases hat : a.2 with
+      | true => exact ⟨a, ha, hat, hpa⟩
+      | false =>
+        rw [(hg a ha).2 hat, List.mem_singleton] at hpa
+        rw [hpa] at hpt; cases hpt
+    have hfv : (Expr.and l e').fvars = l.vars ++ e'.fvars := by simp only [Expr.fvars, Expr.fvars_Fc hFl]
+    refine ⟨?_, ?_, ?_, ?_⟩
+    · intro p hp hpt
+      obtain ⟨a, ha, hat, hpa⟩ := hsrc p hp hpt
+      obtain ⟨⟨pre', hpe'⟩, hmem⟩ := (hrest a ha hat).ext p hpa hpt
+      obtain ⟨pre, hpe, hprop, _⟩ := hextl a ha
+      refine ⟨⟨pre' ++ pre, by rw [hpe', hpe, List.append_assoc]⟩, ?_⟩
+      intro b hb
+      rcases hmem b hb with hb' | hb'
+      · rw [hpe] at hb'
+        rcases List.mem_append.mp hb' with hb' | hb'
+        · right; intro v hv
+          exact ⟨List.mem_append_left _ (Expr.mem_nodes_var.mp (hv ▸ (hprop b hb').1)), (hprop b hb').2 v hv⟩
+        · left; exact hb'
+      · right; intro v hv
+        exact ⟨List.mem_append_right _ (hb' v hv).1, (hb' v hv).2⟩
+    · intro p hp hpt
+      obtain ⟨a, ha, hat, hpa⟩ := hsrc p hp hpt
+      exact (hrest a ha hat).fn p hpa hpt
+    · intro p hp hpt τ b hcov hag hs
+      obtain ⟨a, ha, hat, hpa⟩ := hsrc p hp hpt
+      obtain ⟨⟨pre', hpe'⟩, _⟩ := (hrest a ha hat).ext p hpa hpt
+      obtain ⟨pre, hpe, _, _⟩ := hextl a ha
+      have haga : agreesB τ a.1 = true := by
+        rw [hpe', agreesB_append, Bool.and_eq_true] at hag; exact hag.2
+      have hagenv : agreesB τ env = true := by
+        rw [hpe, agreesB_append, Bool.and_eq_true] at haga; exact haga.2
+      simp only [satE] at hs
+      obtain ⟨bl, hbl, hs⟩ := bind_ok hs
+      obtain ⟨br, hbr, hs⟩ := bind_ok hs
+      have hb := pure_ok hs
+      rw [hfv] at hcov
+      have hbrt : br = true := (hrest a ha hat).sound p hpa hpt τ br
+        (fun v hv => hcov v (List.mem_append_right _ hv)) hag hbr
+      have hc := cover w τ l hFl (fun v hv => hcov v (List.mem_append_left _ hv)) hnl env ls bl
+        (hlf.mono (subset_append_left _ _)) hagenv h0 hbl
+      have : a.2 ∈ (ls.filter fun p => agreesB τ p.1).map (·.2) :=
+        List.mem_map.mpr ⟨a, List.mem_filter.mpr ⟨ha, haga⟩, rfl⟩
+      rw [hc, List.mem_singleton, hat] at this
+      rw [← hb, ← this, hbrt]; rfl
+    · intro τ hcov hag hs
+      simp only [satE] at hs
+      obtain ⟨bl, hbl, hs⟩ := bind_ok hs
+      obtain ⟨br, hbr, hs⟩ := bind_ok hs
+      have hb := pure_ok hs
+      simp only [Bool.and_eq_true] at hb
+      obtain ⟨rfl, rfl⟩ := hb
+      rw [hfv] at hcov
+      obtain ⟨a, _, hav, ham, haa⟩ := cells_single
+        (cover w τ l hFl (fun v hv => hcov v (List.mem_append_left _ hv)) hnl env ls true
+          (hlf.mono (subset_append_left _ _)) hag h0 hbl)
+      obtain ⟨p, hp, hpt, ρ, hρ, hagp⟩ := (hrest a ham hav).complete τ
+        (fun v hv => hcov v (List.mem_append_right _ hv)) haa hbr
+      refine ⟨p, List.mem_flatMap.mpr ⟨a, ham, hp⟩, hpt, ρ, ?_, hagp⟩
+      intro b hb
+      simp only [Expr.qvars]
+      exact List.mem_append_right _ (hρ b hb)
+  | exists_ q φ _ =>
+    intro A B hQ hln env rs hk hB hA hlf h
+    simp only [Expr.Ql, Bool.and_eq_true, Bool.not_eq_true', List.contains_iff_mem,
+      List.all_eq_true, Bool.or_eq_true, beq_iff_eq] at hQ
+    obtain ⟨⟨⟨⟨hF, hqA⟩, hb1⟩, hb2⟩, hvars⟩ := hQ
+    have hq : env.lookup (.var q) = none := by
+      cases hl : env.lookup (.var q) with
+      | none => rfl
+      | some y => exact absurd (hA q (by simp [hl])) (by simpa using hqA)
+    exact exists_qinv w hnd q φ hF (litNodup_cons_var hln) B ⟨hb1, hb2⟩ hvars env rs hk hB hq
+      (hlf.mono fun k hk => List.mem_cons_of_mem _ hk) h
+  | forAll q φ _ =>
+    intro A B hQ hln env rs hk hB hA hlf h
+    simp only [Expr.Ql, Bool.and_eq_true, Bool.not_eq_true', List.contains_iff_mem,
+      List.all_eq_true] at hQ
+    obtain ⟨⟨hF, hqA⟩, hall⟩ := hQ
+    have hq : env.lookup (.var q) = none := by
+      cases hl : env.lookup (.var q) with
+      | none => rfl
+      | some y => exact absurd (hA q (by simp [hl])) (by simpa using hqA)
+    exact forAll_qinv w hnd q φ hF (litNodup_cons_var hln) hall env rs hk hq
+      (hlf.mono fun k hk => List.mem_cons_of_mem _ hk) h
+  | _ => intro A B hQ; simp [Expr.Ql] at hQ
+
 
 end KrroodVerif.Eql
